@@ -574,6 +574,29 @@ impl World {
                 }
                 o
             }
+            "Retire" => {
+                // Settle, wait out the settling delay, Collect: the youngest payment channel deletes itself
+                let mut ps: Vec<ActorID> = self
+                    .v
+                    .actor_states()
+                    .iter()
+                    .filter(|(_, a)| ACTOR_TYPES.get(&a.code) == Some(&Type::PaymentChannel))
+                    .map(|(k, _)| k.id().unwrap())
+                    .collect();
+                ps.sort();
+                match ps.last() {
+                    None => panic!("Retire without a payment channel"),
+                    Some(p) => {
+                        let pa = Address::new_id(*p);
+                        let o1 = self.v.run(&from_id, &pa, &zero, fil_actor_paych::Method::Settle as u64, None);
+                        self.v.set_epoch(self.v.epoch() + fil_actor_paych::SETTLE_DELAY + 1);
+                        let o2 = self.v.run(&from_id, &pa, &zero, fil_actor_paych::Method::Collect as u64, None);
+                        ev["rid"] = json!(*p);
+                        ev["settle_ok"] = json!(o1.ok());
+                        o2
+                    }
+                }
+            }
             "Invoke" => {
                 let cd = encode(&self.to_cmds(&call["prog"]));
                 invoke(&self.v, &from_id, &self.real_of(&call["to"]), &cd, &zero).0
@@ -581,7 +604,7 @@ impl World {
             x => panic!("unknown call {x}"),
         };
         // tombstones are relative to the message just executed
-        self.last_msg.set((from_id.id().unwrap(), msg_nonce));
+        self.last_msg.set((from_id.id().unwrap(), if a == "Retire" { msg_nonce + 1 } else { msg_nonce }));
         let mut res = vec![];
         self.attempts(&o.inv, true, true, &pre, msg_nonce, &mut HashMap::new(), &mut res);
         ev["res"] = json!(res);
@@ -655,6 +678,10 @@ fn random_call(rng: &mut Rng, w: &World) -> Value {
             _ => {}
         }
         seqs.insert(r["addr"].to_string(), r["seq"].as_u64().unwrap());
+    }
+    let has_paych = st["act"].as_array().unwrap().iter().any(|a| a[1]["code"] == "paych");
+    if has_paych && rng.chance(8) {
+        return json!({"a": "Retire", "from": ["key", "k1"]});
     }
     let from = rng.pick(&senders).clone();
     let users = [json!(["key", "k1"]), json!(["key", "k2"]), json!(["raw", "e1"])];
